@@ -143,7 +143,7 @@ class Run(object):
         elif res["rc"] != 0:
             self.machinery.append("MC tlc rc=%s\n%s" % (res["rc"], res["out"][-3000:]))
         if replay and leaves:
-            cap = 1500 if self.tier == "quick" else 5000
+            cap = 1500 if self.tier == "quick" else 2500
             info["leaves_replayed"] = min(len(leaves), cap)
             if len(leaves) > cap:       # a seeded sample of the behaviours is replayed (the counterexample always is)
                 keep = leaves[-1:] if res["violated"] else []
